@@ -472,6 +472,7 @@ def plan(tier, seed):
                     continue
                 chunks.append({'kind': 'auto', 'prefix': [a, b, c], 'L': L})
     chunks.append({'kind': 'auto-short', 'L': 2})
+    chunks.append({'kind': 'cli-options'})
     ncorp = len(corpora(tier))
     for fmt in ('export', 'brackets', 'discobrackets', 'tigerxml'):
         for lo in range(0, ncorp, 12):
@@ -482,7 +483,7 @@ def plan(tier, seed):
                 'rendered as a file (3 whitespace styles, with/without final newline) and read with emptypos x '
                 'gf_split on/off; subtrees are cut only after reference and implementation both rejected the prefix. '
                 '(b) %d corpora of 1..3 sentences (feature pool + all shapes n <= %d) x all layouts of each format x '
-                'option sets (every single option, gzip, 3 encodings, combinations). non-trivial = sequences that '
+                'option sets (every single option, gzip, 3 encodings, combinations). (c) gf_split through the command line next to the writer options gf / gf_separator. non-trivial = sequences that '
                 'contain at least one complete group; corpora cases are all non-trivial'
                 % (L, ncorp, 3 if tier == 'quick' else 4),
         'bound': 'class sequences of length <= %d; corpora of <= %d sentences' % (L, 2 if tier == 'quick' else 3),
@@ -506,6 +507,9 @@ def variants_for(tier):
 
 def check_case(case):
     with quiet():
+        if case.get('gf_transfer'):
+            from .c03 import check_gf_transfer
+            return check_gf_transfer(case['corpus'], case['dest'])
         if 'seq' in case:
             return check_seq(tuple(case['seq']), case['ws'], case['nl'], case['emptypos'], case['gf_split'],
                              case.get('firstid'))[0]
@@ -520,6 +524,18 @@ def run_chunk(chunk):
             search(chunk['prefix'], chunk['L'], res, variants_for(tier))
             res.sample({'class_sequence_prefix': chunk['prefix'], 'max_length': chunk['L'],
                         'example_file': render(tuple(chunk['prefix']) + ('tok', 'ws', 'tok', ')'), 0, True)[1]})
+        elif chunk['kind'] == 'cli-options':
+            # the reader option as the command line delivers it, next to a writer option of the same family
+            from .c03 import check_gf_transfer, pool
+            corp = [m.to_json() for m in pool(True)[:3]]
+            for dest in ('export3', 'brackets', 'discobrackets'):
+                vs = check_gf_transfer(corp, dest)
+                res.evals += 1
+                res.nontrivial += 1
+                res.outcome(('cli-options', dest, len(vs)))
+                for x in vs:
+                    res.violation(x['kind'], x['where'], x['case'], x['detail'], x['what'])
+            res.sample({'cli': 'treetools transform SRC DEST --src-format brackets --src-opts gf_split --dest-opts gf gf_separator:#'})
         elif chunk['kind'] == 'auto-short':
             for L in range(0, chunk['L'] + 1):
                 for seq in itertools.product(CLASSES, repeat=L):
